@@ -506,6 +506,49 @@ def wildcard_cells(ctx):
                 "the observed instance gave %d event(s)" % len(calls), **case)
 
 
+def wildcard_sibling_first_cells(ctx):
+    """the wildcard-governed name was first used on *another* instance
+    (which makes it a class-level trait); an observer registered afterwards
+    on a fresh instance must see that name like any other"""
+    from traits.api import HasTraits, Instance, Int
+    from traits.observation.api import trait as t_
+
+    class Leaf(HasTraits):
+        value = Int
+    for ename, mk in (("anytrait", lambda: "*"),
+                      ("optional-name", lambda: t_("slot_a", optional=True))):
+        case = {"wildcard_cell": ename, "first": "sibling-first"}
+        ctx.case(case)
+        ctx.ev()
+        ctx.tr()
+
+        class W(HasTraits):
+            slot_ = Instance(Leaf)
+        sib = W()
+        sib.slot_a = Leaf()
+        w = W()
+        calls = []
+
+        def h(ev):
+            calls.append(getattr(ev, "name", None))
+        try:
+            w.observe(h, mk())
+            w.slot_a = Leaf()
+        except Exception as exc:
+            ctx.violation("C08:wildcard:raises:%s" % ename, "raised %r"
+                          % (exc,), **case)
+            continue
+        if calls.count("slot_a") != 1:
+            ctx.violation(
+                "C08:wildcard:sibling-first:%s" % ename,
+                "the name had been used on another instance before; an "
+                "observer registered on a fresh instance got %d event(s) for "
+                "its first assignment of that name" % calls.count("slot_a"),
+                **case)
+        else:
+            ctx.outcome("step-trait-event")
+
+
 #: expressions with large menus: events on the root only, one level less
 ROOT_ONLY = {"+coll.items.value"}
 
@@ -534,6 +577,7 @@ def run_shard(ctx, shard, tier):
         return
     if ename == "__wildcard__":
         wildcard_cells(ctx)
+        wildcard_sibling_first_cells(ctx)
         ctx.depth_completed = 2
         return
     evs = menu(ename)
@@ -581,6 +625,7 @@ def replay(rec):
     c = rec.get("case") or rec
     if c.get("wildcard_cell"):
         wildcard_cells(ctx)
+        wildcard_sibling_first_cells(ctx)
         for v in ctx.violations.values():
             print("  violation:", v["sig"], v["msg"])
         return not ctx.violations
